@@ -211,6 +211,14 @@ pub fn hostile_text_frames(r: &mut Rng, fam: Fam, out: &mut Vec<Vec<u8>>) {
         Role::Prop { kind, .. } => matches!(kind, PK::Str | PK::Pair),
         _ => false,
     });
+    // a host with hundreds of text fields (long topic lists) would cost frames x fields: keep the
+    // first and last few spots and a random sample of the rest
+    let spots: Vec<usize> = if spots.len() > 48 {
+        let n = spots.len();
+        spots.iter().enumerate().filter(|(j, _)| *j < 8 || *j + 8 >= n || r.chance(32, n as u64)).map(|(_, s)| *s).collect()
+    } else {
+        spots
+    };
     for &i in &spots {
         // a few hostile strings per spot
         let long = gen::long_invalid_filter(r);
